@@ -55,7 +55,8 @@ def run(ctx):
         ow = [b for b, t in calls.items() if t['callee'].endswith("MutableTcpPacket::<'a>::owned")]
         ok = len(ow) == 1
         v = peel(tcp.argv(ow[0], 0), unwraps=False) if ok else None
-        ok = ok and header_only(buf_segments(v), r"TcpPacket::<'a>::minimum_packet_size$")
+        segs_ = buf_segments_at(tcp, ow[0], 0) if ok else None
+        ok = ok and segs_ is not None and header_only(segs_, r"TcpPacket::<'a>::minimum_packet_size$")
         rep.check(r2, ok, 'synack:buffer', 'buffer <- %s' % (short(v) if v else None), tcp.loc(ow[0]) if ow else tcp.loc(h))
         fl = last_set_flags(tcp, h)
         rep.check(r2, [c for _, c in fl] == [0x12], 'synack:flags', 'last flags written: %s' % [hex(c) if c is not None else None for _, c in fl], tcp.loc(fl[0][0]) if fl else tcp.loc(h))
